@@ -1347,3 +1347,43 @@ def _c03_qpq(ctx, cands, rank, nb):
     if conds:
         ctx.bad('tallies-differ-from-the-text', z3.Or(*conds))
     ctx.reach('matches-text')
+
+
+# ---------------------------------------------------------------------------------------------------
+# C17: the report header names unused and overridden options; the record reports the four layers
+
+def mon_C17h(ctx):
+    if ctx.exc is not None:
+        return
+    E = ctx.E
+    spec = ctx.spec
+    try:
+        rep = E.report()
+    except Exception as ex:     # noqa
+        from symex import core
+        if isinstance(ex, core.HarnessError):
+            raise
+        ctx.bad('report-raised:%s' % type(ex).__name__, TRUE)
+        return
+    ctx.reach('header-checked')
+    head = rep.split('\tSeats:')[0]
+    def listed(label):
+        for ln in head.split('\n'):
+            if ln.startswith('\t%s: ' % label):
+                return [x.strip() for x in ln.split(': ', 1)[1].split(',')]
+        return []
+    if sorted(listed('Unused options')) != sorted(spec['expect_unused']):
+        ctx.bad('unused-options-line:%s' % listed('Unused options'), TRUE)
+    if sorted(listed('Overridden options')) != sorted(spec['expect_overridden']):
+        ctx.bad('overridden-options-line:%s' % listed('Overridden options'), TRUE)
+    ro = E.record()['options']
+    cmd = {k: v for k, v in (spec.get('opts') or {}).items()}
+    for k, v in cmd.items():
+        if ro['cmd'].get(k) != v:
+            ctx.bad('record-cmd-layer', TRUE)
+    for k, v in (spec.get('expect_file') or {}).items():
+        if ro['file_options'].get(k) != v:
+            ctx.bad('record-file-layer', TRUE)
+    for k, v in (spec.get('expect_force') or {}).items():
+        if ro['force'].get(k) != v or ro['options'].get(k) != v or E.options.getopt(k) != v:
+            ctx.bad('record-force-layer', TRUE)
